@@ -7,6 +7,7 @@ CONSTANTS
   FaultAts = {0}
   MultiQ = TRUE
   KeepSched = FALSE
+  WCCheckBeforeLock = FALSE
 INVARIANTS MonitorOK WCBounded
 PROPERTIES WCReturns
 CHECK_DEADLOCK FALSE
